@@ -80,6 +80,18 @@ class C05(Check):
             net["p_partial_write"] = 0.5
             stalls = []
             inbound = inbound[:1]
+        if index % 4 == 1:
+            # tail burst: the very last submission is one send_messages() call whose total exceeds the
+            # send-buffer limit, and nothing (no submission, no inbound traffic) follows it
+            limit = rng.choice([900, 1500, 2400])
+            knobs["SEND_BUFFER_MAXIMUM_SIZE"] = limit
+            m = rng.choice([3, 4, 6, 9])
+            pads = [rng.choice([100, 250, 400]) for _ in range(m)]
+            subs = subs[:1]
+            subs[0]["ops"] = subs[0]["ops"][:rng.choice([0, 1, 2])] + [
+                {"n": m, "pads": pads, "kinds": ["req"] * m, "wait": 0.0}]
+            inbound = []
+            stalls = []
         return {"mode": rng.choice(["CLIENT", "SERVER"]), "subs": subs, "inbound": inbound,
                 "write_stalls": stalls, "thread_stalls": draw_stalls(rng, span=600),
                 "func_stalls": func_stalls,
